@@ -41,9 +41,13 @@ CHECKS["C07"] = {
             "every write to one (through local aliases and helper calls, all 300+ functions, not only those reachable from the entry points) "
             "must be covered by executor.reset re-initialising it to a fresh value, or be on a two-line allow-list with reasons; both entry "
             "points must reach reset() on every exit incl. exceptions; registries are not aliased or imported by value; visitor and cursor "
-            "are fresh per translation. Sound for the modelled heap (locals, attributes, subscripts, returns/mutates summaries); precision "
+            "are fresh per translation. Carriers outside the executor are covered by their own rules: the output file is replaced, not overlaid (truncating "
+            "write), the dataset object is not written from per-query values (taint from the method arguments), translation code leaves no attribute "
+            "on query nodes except the validated rep/scope pair, reset() clears only what a translation writes (configuration survives), each "
+            "backend's default types survive another executor's reset, the caller's tree is copied before in-place passes (the last two are known "
+            "findings on the pinned tree). Sound for the modelled heap (locals, attributes, subscripts, returns/mutates summaries); precision "
             "limits are listed in the note.",
-    "note": "Assumes each query arrives as its own AST object and that objects created inside a translation die with it. Flow-insensitive, "
+    "note": "Assumes objects created inside a translation die with it. Flow-insensitive, "
             "field-insensitive points-to over names; aliasing through containers of containers or through func_adl/jinja2 internals is not "
             "modelled. unique_var_index is allowed to survive (numbering is factored out by the property).",
     "technique": "inter-procedural effect analysis (points-to fixpoint + returns/mutates summaries) with reset-coverage and exit-path rules",
@@ -78,11 +82,11 @@ CHECKS["C01"] = {
             "handlers never move the cursor; tuple/list/dict elements translated with retain_scope), Select/Where reuse the source iterator, "
             "accumulator declared one block outside its loop and updated at the sequence-value scope, no variable initialiser computed from a "
             "translated sub-expression (declarations are hoisted), rep cache reused only under starts_with, normalisation pipeline order, Fill "
-            "at the mainline scope, top_level_scope() only at frozen sites, both CMS configurations process all events. Breaking any of them "
+            "at the mainline scope, top_level_scope() only at frozen sites, both CMS configurations process all events, Range filled by std::iota before its loop, retain_scope defaults, the -d input replaces the list. Breaking any of them "
             "breaks rows/values for some query; holding all of them does not prove the rows right.",
     "note": "Not decided (needs execution): LINQ row/value equivalence for all queries x events; the runtime scope algebra of util_scope "
-            "(starts_with, deepest_scope, [-1]) and code_fill_ttree's placement decisions; func_adl's own normalisations. Four known findings "
-            "(hoisted Range bounds and Aggregate seed, miniAOD maxEvents=10) are listed in known_findings.txt.",
+            "(starts_with, deepest_scope, [-1]) and code_fill_ttree's placement decisions; func_adl's own normalisations. Six known findings "
+            "(hoisted Range bounds and Aggregate seed, miniAOD maxEvents=10, First() of nested sequences, terminals after SelectMany) are listed in known_findings.txt.",
     "technique": "abstract interpretation of the emission cursor (typestate) over structured paths + def-use checks on ast",
 }
 CHECKS["C04"] = {
@@ -110,7 +114,8 @@ CHECKS["C02"] = {
             "vs what each runner copies, executable bit, returned info, every template variable provided for its backend, no jinja "
             "construct in plain files, no un-interpolated {braces} in emitted lines, declarations-before-statements in block.emit, per-use "
             "unique_name for every declarable variable, sanitised column identifiers, casts on type mismatch, Fill at the mainline scope, "
-            "whole-word argument substitution, templates loaded per call from the executor's own directory.",
+            "whole-word argument substitution, templates loaded per call from the executor's own directory, every C++ variable a handler creates is "
+            "declared, and the emission pipeline (visitor -> generated_code -> template variables) forwards query, booking and class-declaration code.",
     "note": "Not decided: that the C++ compiles against the experiment headers; that a given composition puts each use inside the declaring block "
             "(runtime scope algebra). unique_name has no separator between base and index (_col1+3 vs _col+13): described in DESIGN, not checked.",
     "technique": "ast + jinja2 parse-tree agreement checks; string-template analysis; regex AST of the substitution pattern",
@@ -126,7 +131,8 @@ CHECKS["C03"] = {
 CHECKS["C06"] = {
     "text": "Decides placeholder agreement between get_collection and every backend coder's code lines (retrieval idiom per backend), the "
             "built-in specification tables, call validation by a propositional truth-table check of the guards, backend-name three-way "
-            "agreement, README keys subset of allowed keys subset of keys read, de-duplicated forwarding of includes/libraries, per-use "
+            "agreement, README keys subset of allowed keys subset of keys read (helper calls inlined, key-list expressions evaluated, no growth through a shared "
+            "alias), the (variable, initialiser) layout of instance fields between producer and consumer, de-duplicated forwarding of includes/libraries, per-use "
             "miniAOD tokens, a fresh code value per call with stateless coders, and children-first plug-in discovery on a per-query copy.",
     "note": "Trusted: framework semantics of retrieve/getByLabel/getByToken. Not decided: behaviour of the experiment framework on the request.",
     "technique": "ast table extraction, control-dependence with propositional evaluation of guards, template shapes, README tables",
@@ -142,7 +148,8 @@ CHECKS["C08"] = {
 CHECKS["C09"] = {
     "text": "Decides fail-closed structure: the representation gate, loud table lookups, every constant-index read of a list-valued AST field "
             "and every zip dominated by a length test (path enumeration + interval reasoning on len tests, call-site guards for private helpers), "
-            "field coverage of every handled ast class against ast._fields, a frozen table of 20 explicit refusals, documented metadata keys "
+            "field coverage of every handled ast class against ast._fields, a frozen table of 22 explicit refusals (the fall-through statement itself must raise or call a helper that does), lambda parameters "
+            "bound only in their own frame, collection-metadata key sets constant per backend, documented metadata keys "
             "read, operand type validation for every arithmetic operator, history-independent plug-in table.",
     "note": "Trusted: ast._fields of Python 3.12; the library dispatcher's summary. One known finding (raw-object columns accepted).",
     "technique": "path enumeration with length-interval guards, field-coverage set comparison, control-dependence on ast",
@@ -150,7 +157,8 @@ CHECKS["C09"] = {
 CHECKS["C10"] = {
     "text": "Decides that '.'/'->' are synthesised only by base_type_member_access (template scan with four frozen exceptions) from the "
             "declared indirection, the double fallback with warning, the metadata->registry mapping argument by argument, element-typed "
-            "iteration/indexing, recursive qualified enum names, the loop shape of the indirection synthesis and of parse_type.",
+            "iteration/indexing, recursive qualified enum names, the loop shape of the indirection synthesis, the contract of parse_type (trailing stars only, const prefix removed as a prefix, no word "
+            "given to a character-set strip) and of define_ns (cursor descends on every component).",
     "note": "Not decided: the depth arithmetic over all (pointer depth, deref_count) combinations as values - the C++ compiler is the judge.",
     "technique": "string-template scan + def-use and shape checks on ast",
 }
@@ -171,7 +179,9 @@ CHECKS["C13"] = {
 }
 CHECKS["C18"] = {
     "text": "Decides, over all 60+ C++ text sinks of the package, that no Python text is pasted between C++ double quotes except through "
-            "cpp_string_literal (quote-parity analysis of string templates), that the escaper covers backslash, quote and control characters, "
+            "cpp_string_literal (quote-parity analysis of string templates), that the escaper covers backslash, quote and control characters and applies its one-byte octal escape to control characters only "
+            "(interval evaluation of the branch test), that generated files are written as strict UTF-8, that numbers render as their shortest "
+            "round-trip text, that an injected line is emitted whole, "
             "that floats reject non-finite values, negatives are parenthesised, bools/other kinds handled by exact type, substitution inserts "
             "text literally, constants and collection calls are never memoised.",
     "note": "Trusted: Python's str() of a finite float/int is a valid C++ literal of the same value. One known finding (ints typed 32-bit).",
